@@ -53,6 +53,11 @@ func GenPath(r *rand.Rand, root reflect.Value, maxDepth int) Path {
 				}
 				break
 			}
+			if (base.Type().Name() == "Box" || base.Type().Name() == "PBox") && r.Intn(3) == 0 {
+				// Box has a value-receiver Label(), *PBox a pointer-receiver one (always reached through a pointer here)
+				s = Step{Kind: SCall, Name: "Label"}
+				break
+			}
 			if len(names) == 0 {
 				return p
 			}
@@ -64,6 +69,9 @@ func GenPath(r *rand.Rand, root reflect.Value, maxDepth int) Path {
 			}
 			sort.Slice(keys, func(i, j int) bool { return keyLess(keys[i], keys[j]) })
 			k := keys[r.Intn(len(keys))]
+			if k.Kind() == reflect.Array {
+				return p
+			}
 			if k.Kind() == reflect.Interface {
 				k = k.Elem()
 				switch k.Kind() {
@@ -286,6 +294,9 @@ var NilPaths = []Path{
 	{Steps: []Step{{Kind: SField, Name: "Ptrs"}, {Kind: SIndex, Index: 1}, {Kind: SField, Name: "Name"}}},
 	{Steps: []Step{{Kind: SField, Name: "MapSP"}, {Kind: SField, Name: "nilp"}, {Kind: SField, Name: "Name"}}},
 	{Steps: []Step{{Kind: SField, Name: "Nested"}, {Kind: SField, Name: "null", Bracket: true}, {Kind: SField, Name: "x"}}},
+	{Steps: []Step{{Kind: SField, Name: "ShapeNil"}, {Kind: SField, Name: "Name"}}},
+	{Steps: []Step{{Kind: SField, Name: "ShapeNil"}}},
+	{Steps: []Step{{Kind: SField, Name: "Err"}}},
 	{Steps: []Step{{Kind: SField, Name: "NilIn"}}},
 	{Steps: []Step{{Kind: SField, Name: "NilMap"}}},
 	{Steps: []Step{{Kind: SField, Name: "NilSl"}}},
